@@ -181,13 +181,20 @@ template <typename CharT, typename SizeT>
 template <typename CharT>
 [[nodiscard]] constexpr auto strstr_impl(CharT* haystack, CharT* needle) noexcept -> CharT*
 {
-    while (*haystack != CharT(0)) {
-        if ((*haystack == *needle) && (strcmp(haystack, needle) == 0)) {
+    for (;; ++haystack) {
+        auto* h = haystack;
+        auto* n = needle;
+        while (*n != CharT(0) && *h == *n) {
+            ++h;
+            ++n;
+        }
+        if (*n == CharT(0)) {
             return haystack;
         }
-        haystack++;
+        if (*haystack == CharT(0)) {
+            return nullptr;
+        }
     }
-    return nullptr;
 }
 
 template <typename CharT, typename SizeT>
